@@ -76,8 +76,15 @@ def default_run_one(mod, case, tally):
                 # the per-case wall-clock watchdog (60 s) fired while the event loop thread was *executing* server-side code (the
                 # traceback ends inside it), not waiting: the loop - i.e. the whole worker - was blocked in a computation that does not end
                 frames = _re.findall(r'File "([^"]+)", line (\d+), in (\w+)', obs.handler_exc or "")
-                inside = [f for f in frames if "/hypercorn/" in f[0]] or [f for f in frames if "/hv/" not in f[0]]
-                where = ("%s:%s" % (inside[-1][0].split("/")[-1], inside[-1][2])) if inside else "?"
+                # ... which is only what happened if the *innermost* frame - where the alarm found the thread - is the server's code or
+                # a protocol library's.  Found inside the harness (a scripted application producing its body, the virtual loop) or the
+                # standard library, the case was merely slow on a loaded machine: a wall-clock watchdog is never a verdict.
+                inner = frames[-1] if frames else None
+                server_side = inner is not None and ("/hypercorn/" in inner[0] or any("/site-packages/%s/" % lib in inner[0] for lib in ("h11", "h2", "hpack", "wsproto", "priority", "hyperframe")))
+                if not server_side:
+                    tally.inconclusive["case-wall-clock-watchdog"] += 1
+                    continue
+                where = "%s:%s" % (inner[0].split("/")[-1], inner[2])
                 got.append({"clause": "spin", "sig": "%s.event-loop-blocked/%s" % (mod.ID, where),
                             "detail": "no progress for 60 s of wall clock with the event loop thread inside %s: %s" % (where, (obs.handler_exc or "")[-900:])})
             else:
